@@ -26,20 +26,21 @@ from .oracle_random import injected_randbelow
 PROP = "C17"
 MODEL = "Datasets"
 SHARD = 120
-CASE_TIMEOUT = 30
+CASE_TIMEOUT = 15
 RULE = ("cases: recipes over generated CSV files (0-7 records, 1-4 columns, quoting, embedded commas/"
         "quotes/newlines, unicode, BOM, CRLF, blank lines, short lines) and SQLite tables with the same "
         "content; Dataset.iterate / Dataset.shuffle consumers (count 0..3n+2) at top level, as friend, as "
         "nested object, with repeat unset/True/False; for_each templates (also nested, also shuffled); "
         "consumers below a for_each; update mode with pass-through fields; 1-2 iterations.  The rows "
         "written (per template: for_each record, child_index, consumed records per call site, projected "
-        "columns) and the outcome are compared with the Coq model; shuffles use injected _randbelow draws. "
+        "columns) and the outcome are compared with the Coq model; at most one shuffled use per case, its passes replayed in the model. "
         "non-trivial: some dataset with >= 2 records is drawn from at least twice (wrap-around, cycle, "
         "for_each) or is over-consumed; distinct by case hash")
-TRUSTED = ["harness/oracle_random.py: random.Random._randbelow patched to inject/record the draws of random.shuffle",
+TRUSTED = ["harness/oracle_random.py: random.Random._randbelow patched so that runs are reproducible from the case",
            "harness/c17.py: CaptureStream (an OutputStream subclass passed by dotted name as output_format) records "
-           "raw row values; for SQL shuffles (ORDER BY random() inside SQLite) the permutation is read back from the "
-           "output and turned into the equivalent Fisher-Yates draws for the model",
+           "raw row values; the permutation of every shuffled pass (random.shuffle for CSV, ORDER BY random() inside "
+           "SQLite) is read back from the output and given to the model as the equivalent Fisher-Yates draws, so the "
+           "model comparison checks 'some permutation per pass', the oracle checks exactly-once directly",
            "python csv module (reader) as the reference decoder of the generated CSV text"]
 ASSUMPTIONS = ["csv.DictReader / SQLAlchemy+SQLite deliver the stored records in storage order with every cell intact "
                "(library code; sampled by every case, not proved)",
@@ -53,6 +54,10 @@ _ROWS = []
 
 
 # ---------------------------------------------------------------- capture stream (worker side)
+class _TooManyRows(BaseException):
+    pass
+
+
 def __getattr__(name):
     if name == "CaptureStream":
         from snowfakery.output_streams import OutputStream
@@ -64,6 +69,8 @@ def __getattr__(name):
                 pass
 
             def write_row(self, tablename, row):
+                if len(_ROWS) > 1500:          # a loop that no longer ends (no recipe here writes > 700 rows)
+                    raise _TooManyRows()
                 _ROWS.append((tablename, dict(row)))
 
             def write_single_row(self, tablename, row):
@@ -260,18 +267,14 @@ def gen_consumer_case(rng, n=None, m=None, mode=None, repeat="?", src=None, plac
     elif placement == "nested":
         recipe = [tmpl(2, ["count", rng.randint(0, 3)], nested=[cons])]
     elif placement == "deep":
-        inner = tmpl(2, ["count", rng.randint(1, 2)], nested=[cons] if rng.random() < 0.5 else [],
-                     friends=[] if rng.random() < 0.5 else [cons])
-        if not inner["nested"] and not inner["friends"]:
-            inner["friends"] = [cons]
+        as_nested = rng.random() < 0.5
+        inner = tmpl(2, ["count", rng.randint(1, 2)], nested=[cons] if as_nested else [],
+                     friends=[] if as_nested else [cons])
         recipe = [tmpl(3, ["count", rng.randint(1, 2)], friends=[inner])]
     elif placement == "two_sites":
-        # CSV shuffles draw in program order; an SQL shuffle cannot be mixed with other shuffles
-        if src == "sql" and mode == "shuffle":
-            u2 = use("d0", rng.choice(["csv", "sql"]), "iterate", rng.choice([None, False]))
-        else:
-            m2 = rng.choice(["iterate", "shuffle"])
-            u2 = use("d0", "csv" if m2 == "shuffle" else rng.choice(["csv", "sql"]), m2, rng.choice([None, False]))
+        # at most one shuffled use per case: its passes are read back from the rows (infer_draws)
+        m2 = "iterate" if mode == "shuffle" else rng.choice(["iterate", "shuffle"])
+        u2 = use("d0", rng.choice(["csv", "sql"]), m2, rng.choice([None, False]))
         cons["sites"].append([2, u2])
         recipe = [cons]
     else:
@@ -658,13 +661,15 @@ def fy_draws(n, prefix):
     return draws
 
 
-def infer_sql_draws(case, rows):
-    """SQLite's ORDER BY random() cannot be injected: read the permutation of every pass back from the rows."""
+def infer_draws(case, rows):
+    """The permutation of every pass of the (single) shuffled use is read back from the rows and turned into
+    the Fisher-Yates draws that produce it: SQLite's ORDER BY random() cannot be injected, and for CSV files
+    this keeps the comparison independent of how the code obtains its permutation (random.shuffle today)."""
     uses = [(k, t, sid, u, rc) for k, t, sid, u, rc in all_uses(case) if u["mode"] == "shuffle"]
     if not uses:
-        return None
-    if not (len(uses) == 1 and uses[0][3]["src"] == "sql"):
-        return None if all(u["src"] == "csv" for _, _, _, u, _ in uses) else "mixed"
+        return []
+    if len(uses) > 1:
+        return "mixed"
     kind, t, sid, u, rc = uses[0]
     data = data_of(case, u)
     n = len(data)
@@ -703,14 +708,13 @@ def coq_case(case, obs):
     if any(r["fe"] == "unavailable" for r in rows):
         return None
     err = obs.get("err")
-    if err is not None and err != "DGE" and not err.isidentifier():
+    if err not in (None, "DGE"):
+        return None                 # a crash / runaway loop: reported by the oracle, the model only knows DGE
+    orc = infer_draws(case, rows)
+    if orc == "mixed":
         return None
-    inferred = infer_sql_draws(case, rows)
-    if inferred == "mixed":
-        return None
-    if inferred == "noperm":
-        inferred = [0] * 64         # the oracle reports it; the model will disagree as well
-    orc = inferred if inferred is not None else obs.get("draws", [])
+    if orc == "noperm":
+        orc = [0] * 64              # the oracle reports it; the model will disagree as well
     top, _ = effective_top(case)
     tids = sorted({t["tid"] for t, _ in walk(case["recipe"])})
     e = "None" if err is None else f"(Some {C.cerr(err)})"
@@ -960,22 +964,22 @@ def _with_rows(case, name, rows):
 
 
 def shrink(case):
+    """a few big steps only: every candidate costs a fresh worker pool in the driver"""
+    import copy
     if case.get("iters", 1) > 1:
         yield dict(case, iters=1)
     for name, ds in case["datasets"].items():
         rows = ds["rows"]
-        for i in range(len(rows)):
-            yield _with_rows(case, name, rows[:i] + rows[i + 1:])
-    import copy
+        if len(rows) > 2:
+            yield _with_rows(case, name, rows[:2])
+        if len(rows) > 1:
+            yield _with_rows(case, name, rows[:-1])
     for idx, (t, _) in enumerate(walk(case["recipe"])):
-        if t["loop"][0] == "count" and t["loop"][1] > 0:
-            c = copy.deepcopy(case)
-            list(walk(c["recipe"]))[idx][0]["loop"][1] -= 1
-            yield c
-        if t["pass"]:
-            c = copy.deepcopy(case)
-            list(walk(c["recipe"]))[idx][0]["pass"].pop()
-            yield c
+        if t["loop"][0] == "count" and t["loop"][1] > 1:
+            for m in (t["loop"][1] // 2, t["loop"][1] - 1):
+                c = copy.deepcopy(case)
+                list(walk(c["recipe"]))[idx][0]["loop"][1] = m
+                yield c
     for name, ds in case["datasets"].items():
         plain = [[(None if c is None else f"r{i}c{j}") for j, c in enumerate(r)] for i, r in enumerate(ds["rows"])]
         if plain != ds["rows"]:
